@@ -283,7 +283,8 @@ def field_products(mon, spec):
         for bits_ in row.fields.values():
             for b in bits_:
                 free &= ~(1 << b)
-        reuse = {}
+        reuse = None
+        itpos = its[0]
         n = 0
         for combo in combos:
             w = row.value | row.sb_value
@@ -294,12 +295,14 @@ def field_products(mon, spec):
                     if (v >> (kk - 1 - i)) & 1:
                         w |= 1 << b
             w |= rng.getrandbits(row.width) & free
-            itpos = its[n % len(its)]
-            if n % 150 < len(its) or itpos not in reuse:
-                reuse[itpos] = mon.setup(kind, itpos, rng)
+            if n % 60 == 0:
+                # one prepared processor state per batch of words (the processor objects are shared between set-ups, so only
+                # the most recent set-up is valid)
+                itpos = its[(n // 60) % len(its)]
+                reuse = mon.setup(kind, itpos, rng)
             n += 1
             mon.bump('field_product_words')
-            mon.judge_word(kind, w, itpos=itpos, tag='fp', reuse=reuse[itpos])
+            mon.judge_word(kind, w, itpos=itpos, tag='fp', reuse=reuse)
         mon.bump('field_product_rows')
 
 
